@@ -42,7 +42,9 @@ def gen_case(rng, maxlen=6, kind=None):
             "resA": [rng.choice("cv") for _ in sa], "resB": [rng.choice("cv") for _ in sb],
             "wrapper": rng.random() < 0.7,
             # wrappers only: this letter is handed over as a BLANK (a legal symbol of a string, tuple or list)
-            "blank": rng.choice(alpha) if rng.random() < 0.3 else None}
+            "blank": rng.choice(alpha) if rng.random() < 0.3 else None,
+            # ... or as a combining mark (a str input must be taken code point by code point, not normalised)
+            "blank_char": rng.choice([" ", " ", "\u0303", "\u0301"])}
     return case
 
 
@@ -58,8 +60,9 @@ def run_impl(case):
     scorer = {k: float(v) for k, v in case["scorer"].items()}
     gap = float(case["gap"])
     bl = case.get("blank") if case["wrapper"] else None
-    to_b = lambda x: " " if x == bl else x
-    unb = lambda row: [bl if x == " " else x for x in row]
+    bc = case.get("blank_char", " ")
+    to_b = lambda x: bc if x == bl else x
+    unb = lambda row: [bl if x == bc else x for x in row]
     if bl:
         sa, sb = [to_b(x) for x in sa], [to_b(x) for x in sb]
         scorer = {(to_b(a), to_b(b)): v for (a, b), v in scorer.items()}
